@@ -78,6 +78,35 @@ def invalidate_on_edit(idx: Index, res: Result, rule: str = "MUSTCALL") -> int:
     return nmembers
 
 
+def run_resource_reset_rule(idx: Index, res: Result, rule: str = "MUSTCALL") -> None:
+    """Shared by C08 and C09: POST /run resets a scenario's cache before it applies any setting to it."""
+    # channels that re-parameterise an already-run scenario reset first
+    srv = idx.func("BPTK_Py/server/bptkServer.py", "BptkServer._run_resource")
+    cfg = build_cfg(srv.node, srv.qual)
+
+    def tr2(node: Node, fact, label_):
+        if node.ast is not None and node.kind in ("stmt", "test", "iter"):
+            probe = node.ast.iter if node.kind == "iter" else node.ast
+            if any(call_name(c) == "reset_scenario_cache" for c in iter_calls(probe)):
+                fact = True
+        if node.kind == "iter" and label_ == "loop" and isinstance(node.ast, ast.For) and "scenario_manager_data" in src(node.ast.iter):
+            fact = False       # a new scenario: its own reset is required
+        return [fact]
+    flow = Flow(cfg, [False], tr2)
+    nset = 0
+    for nd in cfg.stmt_nodes():
+        if nd.kind == "stmt" and isinstance(nd.ast, ast.Assign):
+            t = nd.ast.targets[0]
+            if (isinstance(t, ast.Subscript) and (dotted(t.value) or "") in ("scenario.constants", "scenario.points")) or \
+                    (dotted(t) or "") in ("scenario.starttime", "scenario.stoptime", "scenario.dt"):
+                nset += 1
+                ok = flow.at[nd.id] <= {True}
+                res.check(rule, "POST /run resets the scenario cache before %s" % norm_stmt(nd.ast)[:50], ok, srv.loc(nd.ast), srv.qual,
+                          norm_stmt(nd.ast), "a REST setting is applied to a scenario whose cache was not reset: the next run returns "
+                          "values memoised with the old setting", key="%s/_run_resource/%s" % (rule, src(t)))
+    res.floor("settings stores in _run_resource", nset, 5)
+
+
 def check_c08(idx: Index, tier: str, res: Result) -> None:
     res.explanation = ("(1) invalidate-on-edit: every member of the SD-DSL element classes that recompiles an element's function "
                        "(calls generate_function) calls model.reset_cache() on every path, and both cache resets clear *every* memo "
@@ -88,6 +117,13 @@ def check_c08(idx: Index, tier: str, res: Result) -> None:
                  "CLEAR: shape of the two reset_cache bodies", "LOCKSET: check-then-act on shared tables under worker threads"]
     res.not_decided = ["actual interleavings (that is model checking)", "equality of results with a freshly built model (numeric)",
                        "user code that edits model.equations directly"]
+    # one value per (element, time): the memo is probed, evaluated and filled under one normalised key
+    from .timegrid import check_normalisation
+    deferred = None
+    try:
+        check_normalisation(idx, res)
+    except AnalysisError as e:          # the remaining rules of this property do not depend on it: run them, then fail closed
+        deferred = e
     # ---- (1) invalidate on edit --------------------------------------------------------------------
     res.floor("definition-changing members of sddsl", invalidate_on_edit(idx, res), 5)
     # generate_function clears the element's own memo entry
@@ -127,6 +163,15 @@ def check_c08(idx: Index, tier: str, res: Result) -> None:
                         it = it.func.value if call_name(it) == "keys" else it.args[0]
                     if dotted(deref(fi.node, it)) == memo_attr:
                         ok = True
+        # emptying the rows *in place* (row.clear()) keeps the row objects: an evaluation that is under way holds such a row (memoize's
+        # local alias) and stores its pre-reset result into the live memo after the reset
+        inplace = [c for c in iter_calls(fi.node) if call_name(c) == "clear" and isinstance(c.func.value, ast.Name) and any(
+            isinstance(lp, ast.For) and memo_attr in src(lp.iter) and any(x is c for x in ast.walk(lp)) for lp in walk_no_nested(fi.node))]
+        if inplace:
+            res.find("CLEAR", "CLEAR/%s/rows-emptied-in-place" % qual, fi.loc(inplace[0]), fi.qual, src(inplace[0]),
+                     "%s empties each equation's memo row in place (%s) instead of installing a new row: memoize() keeps a local reference to the "
+                     "row between its miss and its store, so a value computed before the reset lands in the live memo after it" % (qual, src(inplace[0])))
+            ok = True
         whole = [n for n in walk_no_nested(fi.node) if isinstance(n, ast.Assign) and dotted(n.targets[0]) == memo_attr]
         clear = [c for c in iter_calls(fi.node) if call_name(c) == "clear" and dotted(c.func.value) == memo_attr]
         if whole or clear:
@@ -135,6 +180,19 @@ def check_c08(idx: Index, tier: str, res: Result) -> None:
         res.check("CLEAR", "%s clears every memo entry" % qual, ok, fi.loc(), fi.qual, "for k in memo: memo[k] = {}",
                   "%s does not empty the memo of *every* equation (a loop over the whole table assigning {})" % qual,
                   key="CLEAR/%s/all-entries" % qual)
+    # Model.reset_cache: nothing that can evaluate equations runs after the memo was emptied (the agents' reset hooks may read SD
+    # elements; setters call reset_cache *before* installing the new function, so a hook that runs after the clearing re-memoises values of
+    # the old definition)
+    mrc = idx.func(MODEL, "Model.reset_cache")
+    clears = [n for n in walk_no_nested(mrc.node) if (isinstance(n, ast.Assign) and isinstance(n.targets[0], ast.Subscript) and dotted(n.targets[0].value) == "self.memo")
+              or (isinstance(n, ast.Assign) and dotted(n.targets[0]) == "self.memo")
+              or (isinstance(n, ast.Expr) and isinstance(n.value, ast.Call) and call_name(n.value) in ("clear", "update") and "memo" in src(n.value.func))]
+    hooks = [c for c in iter_calls(mrc.node) if call_name(c) in ("reset_cache", "reset") and (call_recv(c) or "") not in ("self",)]
+    late = [c for c in hooks if clears and seq(c) > min(seq(x) for x in clears)]
+    res.check("CLEAR", "Model.reset_cache empties the memo after the reset hooks ran", not late, mrc.loc(late[0]) if late else mrc.loc(), mrc.qual,
+              src(late[0]) if late else "hooks ... memo = {}", "Model.reset_cache calls %s after the memo was emptied: a hook that evaluates an SD element "
+              "fills the memo again before the edit that triggered the reset is installed, and dependents stay stale" % (src(late[0]) if late else ""),
+              key="CLEAR/Model.reset_cache/hook-after-clear")
     sres = idx.func(SCEN, "SimulationScenario.reset_cache")
     drop = [n for n in walk_no_nested(sres.node) if isinstance(n, ast.Assign) and dotted(n.targets[0]) == "self.sd_simulation"
             and isinstance(n.value, ast.Constant) and n.value.value is None]
@@ -146,31 +204,7 @@ def check_c08(idx: Index, tier: str, res: Result) -> None:
     ok = bool(_own_stmt_calls(brc.node, "reset_cache"))
     res.check("CLEAR", "bptk.reset_scenario_cache delegates to the scenario's reset_cache", ok, brc.loc(), brc.qual, "reset_cache()",
               "bptk.reset_scenario_cache does not call reset_cache()", key="CLEAR/bptk.reset_scenario_cache")
-    # channels that re-parameterise an already-run scenario reset first
-    srv = idx.func("BPTK_Py/server/bptkServer.py", "BptkServer._run_resource")
-    cfg = build_cfg(srv.node, srv.qual)
-
-    def tr2(node: Node, fact, label_):
-        if node.ast is not None and node.kind in ("stmt", "test", "iter"):
-            probe = node.ast.iter if node.kind == "iter" else node.ast
-            if any(call_name(c) == "reset_scenario_cache" for c in iter_calls(probe)):
-                fact = True
-        if node.kind == "iter" and label_ == "loop" and isinstance(node.ast, ast.For) and "scenario_manager_data" in src(node.ast.iter):
-            fact = False       # a new scenario: its own reset is required
-        return [fact]
-    flow = Flow(cfg, [False], tr2)
-    nset = 0
-    for nd in cfg.stmt_nodes():
-        if nd.kind == "stmt" and isinstance(nd.ast, ast.Assign):
-            t = nd.ast.targets[0]
-            if (isinstance(t, ast.Subscript) and (dotted(t.value) or "") in ("scenario.constants", "scenario.points")) or \
-                    (dotted(t) or "") in ("scenario.starttime", "scenario.stoptime", "scenario.dt"):
-                nset += 1
-                ok = flow.at[nd.id] <= {True}
-                res.check("MUSTCALL", "POST /run resets the scenario cache before %s" % norm_stmt(nd.ast)[:50], ok, srv.loc(nd.ast), srv.qual,
-                          norm_stmt(nd.ast), "a REST setting is applied to a scenario whose cache was not reset: the next run returns "
-                          "values memoised with the old setting", key="MUSTCALL/_run_resource/%s" % src(t))
-    res.floor("settings stores in _run_resource", nset, 5)
+    run_resource_reset_rule(idx, res)
     bs = idx.func(BPTK, "bptk.begin_session")
     conf = [c for c in iter_calls(bs.node) if call_name(c) == "configure_settings"]
     rst = [c for c in iter_calls(bs.node) if call_name(c) == "reset_scenario_cache"]
@@ -215,30 +249,48 @@ def check_c08(idx: Index, tier: str, res: Result) -> None:
                         raise AnalysisError("cannot resolve thread target %s in %s" % (tname, fi.qual))
                     _lockset(idx, res, fi, target)
     res.floor("Thread(target=...) sites started in a loop", nthreads, 2)
+    if deferred is not None:
+        raise deferred
 
 
 def selected_scenarios_without(fi: FuncInfo, event: str) -> List[str]:
-    """Paths through the body of `if scenario in scenarios:` (per selected scenario) that never call *event*."""
-    sel = [g for g in ast.walk(fi.node) if isinstance(g, ast.If) and isinstance(g.test, ast.Compare) and isinstance(g.test.ops[0], ast.In)
-           and src(g.test.left) == "scenario" and "scenarios" in src(g.test.comparators[0])]
-    sel = [g for g in sel if any(isinstance(lp, ast.For) and any(x is g for x in ast.walk(lp)) for lp in ast.walk(fi.node))]
-    if not sel:
-        raise AnalysisError("%s: per-scenario selection 'if scenario in scenarios' not found" % fi.qual)
-    out: List[str] = []
-    for g in sel:
-        wrapper = ast.FunctionDef(name="selected", args=ast.arguments(posonlyargs=[], args=[], kwonlyargs=[], kw_defaults=[], defaults=[]),
-                                  body=g.body, decorator_list=[], lineno=g.lineno, col_offset=0)
-        cfg = build_cfg(wrapper, fi.qual + ":selected")
+    """Iterations of the per-scenario loop in which the scenario is selected (`scenario in <...scenarios...>` holds on the path, be it
+    a nested if or a `continue` guard) and that reach the next iteration / the end of the loop without calling *event*."""
+    from ..util import implied
+    loops = [lp for lp in ast.walk(fi.node) if isinstance(lp, ast.For) and isinstance(lp.target, (ast.Tuple, ast.Name))
+             and "scenario" in {x.id for x in ast.walk(lp.target) if isinstance(x, ast.Name)}]
 
-        def tr(node: Node, fact, label):
+    def is_sel_atom(a):
+        return isinstance(a, ast.Compare) and len(a.ops) == 1 and isinstance(a.ops[0], ast.In) and src(a.left) == "scenario" \
+            and "scenarios" in src(a.comparators[0])
+    loops = [lp for lp in loops if any(is_sel_atom(a) for t in ast.walk(lp) if isinstance(t, (ast.If, ast.IfExp)) for a, _ in implied(t.test, True) + implied(t.test, False))]
+    if not loops:
+        raise AnalysisError("%s: per-scenario selection 'scenario in scenarios' not found" % fi.qual)
+    cfg = build_cfg(fi.node, fi.qual)
+    out: List[str] = []
+    for lp in loops:
+        head = next(n for n in cfg.nodes if n.kind == "iter" and n.ast is lp)
+        inner_ids = {id(x) for x in ast.walk(lp)}
+
+        def tr(node: Node, fact, label, head=head):
+            sel, called = fact
+            if node is head:
+                return [(None, False)] if label == "loop" else [("out", False)]
+            if sel == "out":
+                return [fact]
+            if node.kind == "test" and label in ("true", "false"):
+                for a, truth in implied(node.ast, label == "true"):
+                    if is_sel_atom(a):
+                        sel = truth
             if node.ast is not None and node.kind in ("stmt", "test", "iter") and label != "exc":
                 probe = node.ast.iter if node.kind == "iter" else node.ast
                 if any(call_name(c) == event for c in iter_calls(probe)):
-                    fact = True
-            return [fact]
-        flow = Flow(cfg, [False], tr)
-        if False in flow.at[cfg.exit]:
-            out.append(" ".join(flow.witness(cfg.exit, False, 12)))
+                    called = True
+            return [(sel, called)]
+        flow = Flow(cfg, [("out", False)], tr)
+        bad = [f for f in flow.at[head.id] if f[0] is True and not f[1]]
+        for f in bad:
+            out.append(" ".join(flow.witness(head.id, f, 12)))
     return out
 
 
